@@ -53,6 +53,14 @@ class H:
     h3: Any = None
 
 
+@symbol
+@dataclass(eq=False)
+class W:
+    """a class whose registered instances a NESTED constructor argument of a rule head ranges over (C11)"""
+    w: Any = None
+    idx: int = -1
+
+
 class Timeout(Exception):
     pass
 
@@ -140,6 +148,17 @@ def make_heap(case):
     for i, o in enumerate(case['heap']):
         objs[i].peer = objs[o[7]['o']]
     return objs
+
+
+def with_wrappers(case, objs):
+    """the registry of W holds exactly this case's wrappers, in this order (C11: nested constructor arguments)"""
+    if case.get('wrappers') is None:
+        return objs
+    from entity_query_language.symbolic import Variable
+    for c_ in Variable._cache_.values():
+        c_.clear()
+    Variable._cache_.clear()
+    return objs + [W(w=pyval(w, objs), idx=len(objs) + j) for j, w in enumerate(case['wrappers'])]
 
 
 def user_data_intact(case, objs):
@@ -245,6 +264,8 @@ class Builder:
             if t[1] not in self.concats:
                 self.concats[t[1]] = concatenate(self.term(t[2]))
             return self.concats[t[1]]
+        if k == 'nest':
+            return W(w=self.term(t[2]))              # built in rule mode: a variable over the registered W instances with w == t
         raise ValueError(t)
 
     def cond(self, c, negated=False):
@@ -341,7 +362,7 @@ def rows_of(q, sel, form, objs, quant=None):
             return 'X not-new-instances'
         for o in made:
             vals = [getattr(o, f'h{i}') for i in range(len(sel))]
-            if any(isinstance(v, P) and v is not objs[v.idx] for v in vals):
+            if any(isinstance(v, (P, W)) and v is not objs[v.idx] for v in vals):
                 return 'X field-object-copied'
             out.append(','.join(show_val(v, index_of) for v in vals))
         return 'R ' + ';'.join(out)
@@ -379,6 +400,7 @@ def run(case):
         _cd.IndexedCache.retrieve = _ref_retrieve if cfg == 'onref' else _retrieve
         objs = make_heap(case)
         LIST_MODE[0] = bool(case.get('list_items'))
+        objs = with_wrappers(case, objs)
 
         def build():
             if case.get('infer'):
